@@ -470,6 +470,8 @@ type gen struct {
 	r         *rand.Rand
 	h         *History
 	withKnown bool
+	focus     bool    // sharing-focused history (see Generate)
+	pShare    float64 // probability that a type / rule object of a spec already present is re-used
 	created   []bool
 	pending   map[int][]Op // setup queue per schema object
 	added     map[int]bool // type object has been added to something
@@ -518,14 +520,14 @@ func (g *gen) plan(i int) {
 	spec := Schemas[g.h.Objs[i].Spec]
 	var q []Op
 	for _, rr := range spec.Rules {
-		q = append(q, Op{Code: OpAddRule, Obj: i, Arg: g.instance(KEnum, rr.Enum, 0.7), Name: rr.Name})
+		q = append(q, Op{Code: OpAddRule, Obj: i, Arg: g.instance(KEnum, rr.Enum, g.pShare), Name: rr.Name})
 	}
 	for _, tr := range spec.Types {
 		switch tr.Kind {
 		case KSelf:
 			q = append(q, Op{Code: OpAddType, Obj: i, Arg: i, Name: tr.Name})
 		default:
-			q = append(q, Op{Code: OpAddType, Obj: i, Arg: g.instance(tr.Kind, tr.Spec, 0.7), Name: tr.Name})
+			q = append(q, Op{Code: OpAddType, Obj: i, Arg: g.instance(tr.Kind, tr.Spec, g.pShare), Name: tr.Name})
 		}
 	}
 	if len(q) > 1 && g.r.Intn(8) == 0 {
@@ -633,11 +635,15 @@ func (g *gen) directUseOK(i int) bool {
 func (g *gen) docFor(schemaObj int) int {
 	id := Schemas[g.h.Objs[schemaObj].Spec].ID
 	spec := g.r.Intn(NDocs())
+	nFit := 5
+	if g.focus {
+		nFit = 7
+	}
 	switch x := g.r.Intn(10); {
-	case x < 5 && len(docFit[id]) > 0:
+	case x < nFit && len(docFit[id]) > 0:
 		fit := docFit[id]
 		spec = fit[g.r.Intn(len(fit))]
-	case x < 7:
+	case x < nFit+2:
 		spec = badDocs[g.r.Intn(len(badDocs))]
 	}
 	d := -1
@@ -705,7 +711,7 @@ func (g *gen) observeSchema(i int) {
 // counted) over 1..3 root schemas, their types and rules, documents, and
 // stand-alone enum / regex objects.
 func Generate(r *rand.Rand, withKnown bool) *History {
-	g := &gen{r: r, h: &History{}, withKnown: withKnown, pending: map[int][]Op{}, added: map[int]bool{}, spent: map[int]bool{},
+	g := &gen{r: r, h: &History{}, withKnown: withKnown, pShare: 0.7, pending: map[int][]Op{}, added: map[int]bool{}, spent: map[int]bool{},
 		advanced: map[int]bool{}, checked: map[int]bool{}, lened: map[int]bool{}}
 	// a history draws its roots either from the base pool (constructs: rules,
 	// enums, allOf, or, key shortcuts, recursion, broken texts) or from the
@@ -715,14 +721,32 @@ func Generate(r *rand.Rand, withKnown bool) *History {
 		roots = Roots()
 	}
 	nRoots := []int{1, 1, 1, 2, 2, 2, 2, 3, 3}[r.Intn(9)]
+	// One history in three is sharing-focused ("on the same or on other Schema
+	// objects": what one schema does to an object it shares with another):
+	// two or three roots that use common type / rule specs, the common objects
+	// (nearly) always shared, set-up mostly completed first, fitting documents
+	// preferred, so that most operations observe one root after another root
+	// loaded / compiled / validated with the same type and rule objects.
+	if r.Intn(3) == 0 {
+		g.focus = true
+		g.pShare = 0.95
+		nRoots = 2 + r.Intn(2)
+	}
 	var rootObjs []int
 	for len(rootObjs) < nRoots {
 		spec := roots[r.Intn(len(roots))]
 		if len(Schemas[spec].Types)+len(Schemas[spec].Rules) == 0 && r.Intn(2) == 0 {
 			spec = roots[r.Intn(len(roots))] // roots with types / rules are the interesting ones: second draw
 		}
+		for try := 0; g.focus && try < 6 && len(Schemas[spec].Types)+len(Schemas[spec].Rules) == 0; try++ {
+			spec = roots[r.Intn(len(roots))] // a sharing-focused history needs roots that have something to share
+		}
 		if len(rootObjs) > 0 {
-			switch x := r.Intn(10); {
+			x := r.Intn(10)
+			if g.focus && x < 2 {
+				x = 3 + r.Intn(5)
+			}
+			switch {
 			case x < 3: // same text again
 				spec = g.h.Objs[rootObjs[r.Intn(len(rootObjs))]].Spec
 			case x < 8: // a root that uses one of the same type / rule specs (its objects can then be shared)
@@ -767,11 +791,15 @@ func Generate(r *rand.Rand, withKnown bool) *History {
 		g.newObj(KRegex, r.Intn(len(Regexes)))
 	}
 	maxOps := 4 + r.Intn(9)
-	g.maxOps = maxOps
 	pSetup := 0.8
 	if r.Intn(3) == 0 {
 		pSetup = 0.4
 	}
+	if g.focus {
+		maxOps = 9 + r.Intn(4)
+		pSetup = 0.9
+	}
+	g.maxOps = maxOps
 	for g.count < maxOps {
 		if len(g.pending) > 0 && r.Float64() < pSetup {
 			// next pending setup op of a root first, of any object otherwise
